@@ -211,7 +211,14 @@ func mergeListMatch(obj []any, m any, v map[string]any) ([]any, error) {
 		if match(v2, m) {
 			found = true
 
-			v2, err := merge(v2, val)
+			// merge() may keep (parts of) the value it is given. Every
+			// matching entry gets its own copy.
+			val2, err := deepClone(val)
+			if err != nil {
+				return nil, err
+			}
+
+			v2, err := merge(v2, val2)
 			if err != nil {
 				return nil, err
 			}
